@@ -1,6 +1,7 @@
 package disk
 
 import (
+
 	"github.com/diskfs/go-diskfs/backend"
 	"github.com/diskfs/go-diskfs/backend/file"
 	"github.com/diskfs/go-diskfs/filesystem"
@@ -50,7 +51,10 @@ func (d *c11Img) WriteAt(p []byte, off int64) (int, error) {
 }
 
 func c11Disk(kind int, size int64) (*Disk, *c11Img, bool) {
-	ro := vp.Bool("readOnly")
+	return c11DiskRO(kind, size, vp.Bool("readOnly"))
+}
+
+func c11DiskRO(kind int, size int64, ro bool) (*Disk, *c11Img, bool) {
 	img := &c11Img{MemDev: vpdev.NewMemDev("img", size), ro: ro}
 	img.UF = true
 	var b backend.Storage
@@ -104,6 +108,11 @@ func VP_C11_disk_partition_mbr_file()  { c11Partition(c11File, false) }
 func VP_C11_disk_partition_mbr_sub()   { c11Partition(c11Sub, false) }
 func VP_C11_disk_partition_gpt_plain() { c11Partition(c11Plain, true) }
 func VP_C11_disk_partition_gpt_file()  { c11Partition(c11File, true) }
+func VP_C11_disk_partition_gpt_sub() {
+	if vp.Thorough() {
+		c11Partition(c11Sub, true)
+	}
+}
 
 // c11WriteContents: Disk.WritePartitionContents(index, reader) on a disk that has an MBR table
 // with one partition of arbitrary position and size; the index is arbitrary (found / not found).
@@ -138,10 +147,15 @@ func VP_C11_disk_write_contents_sub()   { c11WriteContents(c11Sub) }
 // ISO9660 and squashfs only create a host workspace at this point (os.MkdirTemp: outside the
 // engine) and write at Finalize; they are not covered here.
 func c11CreateFS(kind int, t filesystem.Type, lo, hi int64) {
-	size := vp.I64("size")
-	vp.Assume(size >= lo)
-	vp.Assume(size <= hi)
-	d, img, ro := c11Disk(kind, 1<<40)
+	size := lo
+	if lo != hi {
+		size = vp.I64("size")
+		vp.Assume(size >= lo)
+		vp.Assume(size <= hi)
+	}
+	// (the read-only flag is fixed here: with a writable image Create goes through the whole
+	// formatting code, which belongs to other properties)
+	d, img, ro := c11DiskRO(kind, 1<<40, true)
 	d.Size = size
 	pn := 0
 	if vp.Bool("onPartition") {
@@ -160,13 +174,91 @@ func c11CreateFS(kind int, t filesystem.Type, lo, hi int64) {
 		vp.Assert(err != nil, "read-only disk: CreateFilesystem returns an error")
 		vp.Assert(img.writes == 0, "read-only disk: CreateFilesystem wrote nothing")
 		vp.Cover("read-only disk refuses CreateFilesystem")
-	} else if err != nil {
-		vp.Cover("read-write disk: size refused")
 	}
 }
 
-func VP_C11_disk_createfs_fat12_file()  { c11CreateFS(c11File, filesystem.TypeFat12, 0, 8<<20) }
-func VP_C11_disk_createfs_fat12_plain() { c11CreateFS(c11Plain, filesystem.TypeFat12, 0, 8<<20) }
-func VP_C11_disk_createfs_fat16_file()  { c11CreateFS(c11File, filesystem.TypeFat16, 0, 64<<20) }
+// size ranges: quick tier up to 8 MiB (FAT12) / 64 MiB (FAT16); thorough tier the whole range each
+// Create accepts plus sizes beyond it (128 MiB+ / 2 GiB+). FAT32 checks Writable() before any arithmetic.
+func c11Fat12Hi() int64 { return int64(vp.Bound("fat12.maxsize", 8<<20, 129<<20)) }
+func c11Fat16Hi() int64 { return int64(vp.Bound("fat16.maxsize", 64<<20, 2049<<20)) }
+
+func VP_C11_disk_createfs_fat12_file()  { c11CreateFS(c11File, filesystem.TypeFat12, 0, c11Fat12Hi()) }
+func VP_C11_disk_createfs_fat12_plain() { c11CreateFS(c11Plain, filesystem.TypeFat12, 0, c11Fat12Hi()) }
+func VP_C11_disk_createfs_fat12_sub() {
+	if vp.Thorough() {
+		c11CreateFS(c11Sub, filesystem.TypeFat12, 0, c11Fat12Hi())
+	}
+}
+func VP_C11_disk_createfs_fat16_file() { c11CreateFS(c11File, filesystem.TypeFat16, 0, c11Fat16Hi()) }
+func VP_C11_disk_createfs_fat16_plain() {
+	if vp.Thorough() {
+		c11CreateFS(c11Plain, filesystem.TypeFat16, 0, c11Fat16Hi())
+	}
+}
 func VP_C11_disk_createfs_fat32_file()  { c11CreateFS(c11File, filesystem.TypeFat32, 0, 1<<36) }
+func VP_C11_disk_createfs_fat32_plain() { c11CreateFS(c11Plain, filesystem.TypeFat32, 0, 1<<36) }
 func VP_C11_disk_createfs_fat32_sub()   { c11CreateFS(c11Sub, filesystem.TypeFat32, 0, 1<<36) }
+func VP_C11_disk_createfs_ext4_file()   { c11CreateFS(c11File, filesystem.TypeExt4, 16<<20, 16<<20) } // mkfs.ext4 arithmetic is float-based: one concrete size
+func VP_C11_disk_createfs_ext4_plain() {
+	if vp.Thorough() {
+		c11CreateFS(c11Plain, filesystem.TypeExt4, 64<<20, 64<<20)
+	}
+}
+func VP_C11_disk_createfs_unknown()     { c11CreateFS(c11File, filesystem.Type(99), 0, 1<<36) }
+
+// c11ReadImg: image for the reading entry points: sector 0 is an MBR with one partition of
+// arbitrary type/start/size (signature 55 AA), everything else is zero; ANY WriteAt is a violation,
+// whatever mode the backend was opened in.
+type c11ReadImg struct {
+	*vpdev.MemDev
+	writes int
+}
+
+func (d *c11ReadImg) WriteAt(p []byte, off int64) (int, error) {
+	d.writes++
+	vp.Assert(false, "a reading entry point called WriteAt on the image")
+	return len(p), nil
+}
+
+// c11Readers: GetPartitionTable, GetPartition, ReadPartitionContents, GetFilesystem (which runs
+// the Read function of all six filesystems) on a disk opened with an arbitrary read-only flag.
+func c11Readers(withTable bool, start uint32) {
+	ro := vp.Bool("readOnly")
+	img := &c11ReadImg{MemDev: vpdev.NewMemDev("img", 1<<20)}
+	if withTable {
+		m := make([]byte, 512)
+		m[446] = vp.U8("p.boot") & 0x80
+		m[450] = vp.U8("p.type")
+		size := vp.U32("p.size") // the start LBA is a case split (offsets into the image stay concrete)
+		vp.Assume(size <= 2)
+		m[454], m[455], m[456], m[457] = byte(start), byte(start>>8), byte(start>>16), byte(start>>24)
+		m[458], m[459], m[460], m[461] = byte(size), byte(size>>8), byte(size>>16), byte(size>>24)
+		m[510], m[511] = 0x55, 0xaa
+		img.Image = m
+	}
+	d := &Disk{Backend: file.New(img, ro), Size: 1 << 20, LogicalBlocksize: 512, PhysicalBlocksize: 512, DefaultBlocks: true}
+	vp.Unwind(12)
+	vp.NoPanic()
+	t, err := d.GetPartitionTable()
+	if withTable {
+		vp.Assert(err == nil, "the MBR is recognised")
+		vp.Assert(t.Type() == "mbr", "table type")
+		_, _ = d.GetPartition(1)
+		w := &vpdev.ChunkWriter{}
+		_, _ = d.ReadPartitionContents(1, w)
+		_ = t.Verify(d.Backend, uint64(d.Size))
+		_ = t.UUID()
+		vp.Cover("table read, partition contents read")
+	} else {
+		vp.Assert(err != nil, "an all-zero disk has no partition table")
+		_, ferr := d.GetFilesystem(0)
+		vp.Assert(ferr != nil, "an all-zero disk holds no filesystem")
+		vp.Cover("every filesystem reader tried")
+	}
+	vp.AllowPanic()
+	vp.Assert(img.writes == 0, "the reading entry points wrote nothing")
+}
+
+func VP_C11_disk_readers_mbr_1()    { c11Readers(true, 1) }
+func VP_C11_disk_readers_mbr_2047() { c11Readers(true, 2047) } // the last sector: short read at the end of the image
+func VP_C11_disk_readers_blank()    { c11Readers(false, 0) }
